@@ -6,6 +6,7 @@ package execsim
 import (
 	"errors"
 	"fmt"
+	"io"
 	"reflect"
 	"regexp"
 	"sort"
@@ -53,8 +54,8 @@ func (w *SimWriter) Write(p []byte) (int, error) {
 // offset and dynamic call index; fail panics with an error when armed.
 type Probes struct {
 	W       *SimWriter
-	Calls   int   // dynamic probe calls so far
-	FailAt  int   // 1-based dynamic call index at which fail() panics (0: never)
+	Calls   int // dynamic probe calls so far
+	FailAt  int // 1-based dynamic call index at which fail() panics (0: never)
 	Fired   bool
 	FiredID int   // static id of the probe that fired
 	IDs     []int // static id per dynamic call
@@ -109,12 +110,12 @@ func (c Call) String() string {
 
 // Outcome is everything observable about one Execute.
 type Outcome struct {
-	Out      string
-	Err      string // "" = nil error
-	Panic    *sim.Caught
-	GetErr   string // GetTemplate failed
-	Probes   *Probes
-	W        *SimWriter
+	Out    string
+	Err    string // "" = nil error
+	Panic  *sim.Caught
+	GetErr string // GetTemplate failed
+	Probes *Probes
+	W      *SimWriter
 }
 
 func (o Outcome) Key() string {
@@ -387,4 +388,56 @@ func poolStats(env *sim.Env, p *simrt.Pools) {
 	env.Stat("pool:ranger_fresh", p.RgFresh)
 	env.Stat("pool:ranger_reused", p.RgReused)
 	env.Stat("probe:ranger_reused_by_nested_or_later_range", p.RgReusedNested)
+}
+
+type jetSet struct{ set *jet.Set }
+
+// execWithWriterWatch is Exec, and additionally records at which dynamic probe
+// calls the runtime's current Writer was not the real writer (i.e. the call
+// happened while an enclosing try or exec had swapped the destination).
+func execWithWriterWatch(s *jetSet, c Call, nestedAt map[int]bool) Outcome {
+	o, _ := execWatch(s, c, nestedAt)
+	return o
+}
+
+// execWatch additionally returns, per dynamic probe call (1-based index), the
+// identity of the runtime's current Writer at that call.
+func execWatch(s *jetSet, c Call, nestedAt map[int]bool) (Outcome, []io.Writer) {
+	var writers []io.Writer
+	writers = append(writers, nil)
+	w := &SimWriter{FailAt: c.FaultWrite}
+	p := &Probes{W: w, FailAt: c.FaultProbe, Tag: "x"}
+	o := Outcome{Probes: p, W: w}
+	var t *jet.Template
+	var err error
+	if pc := sim.Guard(func() { t, err = s.set.GetTemplate(c.Tmpl) }); pc != nil {
+		o.Panic = pc
+		return o, writers
+	}
+	if err != nil {
+		o.GetErr = err.Error()
+		return o, writers
+	}
+	vm := Vars(c.Data, p)
+	inner := p.fn(false)
+	innerFail := p.fn(true)
+	vm.SetFunc("mark", func(a jet.Arguments) reflect.Value {
+		if cur, ok := a.Runtime().Writer.(*SimWriter); !ok || cur != w {
+			nestedAt[p.Calls+1] = true
+		}
+		writers = append(writers, a.Runtime().Writer)
+		return inner(a)
+	})
+	vm.SetFunc("fail", func(a jet.Arguments) reflect.Value {
+		writers = append(writers, a.Runtime().Writer)
+		return innerFail(a)
+	})
+	data := c.Data.Data()
+	var xerr error
+	o.Panic = sim.Guard(func() { xerr = t.Execute(w, vm, data) })
+	if xerr != nil {
+		o.Err = xerr.Error()
+	}
+	o.Out = string(w.Buf)
+	return o, writers
 }
